@@ -17,8 +17,9 @@ Line-protocol driver for C05.
 `thr <molK> <molT> k (<len> <atoms…>)×k`          → `ok` | `reject`                   (`aromatisedOnlyEligible`)
 `fix <mol> r (c (p (<q> <n>)×p)×c)×r`             → `raise` | `<faithful> <keep> <seen…> | <mol wire>` (`fixRings` over the regenerated table)
 `ks <buffer_size> <limit> k (<atom> <deg> <nbrs…>)×k d <double_bonded…> p <pyrroles…>`
-                                                   → `<done|raise|crash:<Exc>|more> | <n>,<m>,<b> … ; …` (`kekuleComponent`:
-                                                     the yielded paths of `_kekule_component` in order, verbatim)
+                                                   → `<done|raise|crash:<Exc>|more> dom=<0|1> | <n>,<m>,<b> … ; …` (`kekuleComponent`:
+                                                     the yielded paths of `_kekule_component` in order, verbatim;
+                                                     `dom` = `graphOKb`, the domain of `search_sound_partial`)
 -/
 open ChythonModel.Py ChythonModel.Model ChythonModel.Model.C05 ChythonModel.Model.C05T ChythonModel.Spec.Kekule
 
@@ -142,7 +143,7 @@ def handleKs (xs : List Int) : String :=
       | p :: rest2 =>
         if rest2.length != p.toNat then "badwire" else
         let (ys, st) := C05S.kekuleComponent rings ((rest1.take d.toNat).map Int.toNat) (rest2.map Int.toNat) buf.toNat limit.toNat
-        showStatus st ++ " | " ++ " ; ".intercalate (ys.map showPath)
+        showStatus st ++ (if C05S.graphOKb rings then " dom=1" else " dom=0") ++ " | " ++ " ; ".intercalate (ys.map showPath)
       | [] => "badwire"
     | _ => "badwire"
   | _ => "badwire"
